@@ -8,7 +8,7 @@ From Coq Require Import Lia Permutation.
 Definition sreq_ok (b : bundle) (r : req) : Prop :=
   match r with
   | RFuncArgs _ (TableCols _) => has_parenthesized_args (bkids b) = true
-  | RExpr _ => is_expr (bt b) = true
+  | RExpr _ | RExprEmb _ => is_expr (bt b) = true
   | RPattern _ => is_pattern (bt b) = true
   | _ => True
   end.
@@ -66,7 +66,7 @@ Section Converters.
   Definition simple_req (k : bundle) (r : req) : Prop :=
     match r with
     | RFuncArgs _ (TableCols _) => False
-    | RExpr _ => is_expr (bt k) = true
+    | RExpr _ | RExprEmb _ => is_expr (bt k) = true
     | RPattern _ => is_pattern (bt k) = true
     | _ => True
     end.
@@ -198,10 +198,10 @@ Section Converters.
   Proof. intros Hk. unfold convert_destructuring. lst_conv Hk tot_convert_param. Qed.
   Lemma tot_convert_params t kids c u : kids_ok kids -> tot (convert_params swidth cfg t kids c u) (sumN W kids).
   Proof. intros Hk. unfold convert_params. lst_conv Hk tot_convert_param. Qed.
-  Lemma tot_convert_parenthesized_impl t kids c : kids_ok kids -> tot (convert_parenthesized_impl swidth cfg t kids c) (sumN W kids).
+  Lemma tot_convert_parenthesized_impl t kids c emb : kids_ok kids -> tot (convert_parenthesized_impl swidth cfg t kids c emb) (sumN W kids).
   Proof. intros Hk. unfold convert_parenthesized_impl. lst_conv Hk tot_call_pattern. Qed.
 
-  Lemma tot_convert_parenthesized t kids c : kids_ok kids -> tot (convert_parenthesized swidth cfg t kids c) (sumN W kids).
+  Lemma tot_convert_parenthesized t kids c emb : kids_ok kids -> tot (convert_parenthesized swidth cfg t kids c emb) (sumN W kids).
   Proof.
     intros Hk. unfold convert_parenthesized.
     destruct (find (fun b => is_pattern (bt b)) kids) as [p|] eqn:Ef; [|apply tot_convert_parenthesized_impl; assumption].
@@ -1369,11 +1369,22 @@ Section Converters.
     - eapply tot_weaken; [apply tot_convert_destructuring; exact Hk|lia].
   Qed.
 
+  Lemma tot_convert_embedded_expr self c :
+    agood self -> is_expr (bt self) = true -> tot (convert_embedded_expr swidth cfg self c) (2 + sumN W (bkids self)).
+  Proof.
+    intros Hg Hex. unfold convert_embedded_expr.
+    destruct (kind_eqb (bk self) KParenthesized); [|apply tot_convert_expr; assumption].
+    replace (2 + sumN W (bkids self)) with (1 + (1 + sumN W (bkids self))) by lia.
+    apply tot_bind; [apply tot_bump|]. intros _.
+    unfold check_disabled. destruct (a_disabled (attrs_of (bt self))); [apply tot_ret_any|].
+    eapply tot_weaken; [apply tot_convert_parenthesized; apply (agood_kids _ Hg)|lia].
+  Qed.
+
   Lemma tot_step t kids r :
     kids_ok kids -> map bt kids = children t -> swfc_node t = true ->
     (match r with
      | RFuncArgs _ (TableCols _) => has_parenthesized_args kids = true
-     | RExpr _ => is_expr t = true
+     | RExpr _ | RExprEmb _ => is_expr t = true
      | RPattern _ => is_pattern t = true
      | _ => True
      end) ->
@@ -1389,6 +1400,7 @@ Section Converters.
     - eapply tot_weaken; [apply tot_convert_markup_impl; exact Hk|cbn [bkids self]; lia].
     - eapply tot_weaken; [apply tot_convert_math; exact Hk|cbn [bkids self]; lia].
     - eapply tot_weaken; [apply tot_convert_content_block; exact Hk|cbn [bkids self]; lia].
+    - eapply tot_weaken; [apply tot_convert_embedded_expr; [exact Hg|exact Hr]|cbn [bkids self]; lia].
     - eapply tot_weaken; [apply tot_convert_parenthesized; exact Hk|cbn [bkids self]; lia].
     - eapply tot_weaken; [apply tot_convert_named; exact Hk|cbn [bkids self]; lia].
     - eapply tot_weaken; [apply tot_convert_keyed; exact Hk|cbn [bkids self]; lia].
